@@ -16,6 +16,7 @@ import json, math, os, subprocess, sys, warnings
 from fractions import Fraction
 import numpy as np
 from .. import common
+from ..translator import py2lean
 from ..common import enc, ask, HarnessError
 
 LEVEL = "proof"
@@ -512,7 +513,18 @@ def small(case):
 
 # ----------------------------------------------------------------------------- the run
 
+# source translator (DESIGN.md 3.2): part of the model is regenerated from the source text on every run
+TRUSTED = list(TRUSTED) + [py2lean.trusted_note("bottleneck")]
+PROP_FILES = ["PersimVerif/Props/C01.lean"] + py2lean.prop_files("bottleneck")
+
+
+def pre_build(ctx):
+    """source translator: regenerate Generated/Src*.lean from PERSIM_ROOT's source"""
+    py2lean.pre_build(ctx, ("bottleneck",))
+
+
 def run(ctx):
+    py2lean.report_broken(ctx, PROP_FILES)
     r = ctx.rng
     ctx.extra["core_theorems"] = CORE_THEOREMS
     cases = [norm_case(c) for c in CORPUS]
@@ -837,3 +849,4 @@ MANIFEST = {
             "certificate checker accepts. [T]: hash-seed subprocess runs, exhaustive/certified comparison on the real code.",
     "technique": "Lean 4 theorems over a hand-written model (oracle as parameter) + differential correspondence + verified certificate checkers",
 }
+MANIFEST["note"] += " " + py2lean.manifest_note("bottleneck")
